@@ -18,6 +18,8 @@ mod sexp;
 mod watch;
 #[cfg(all(agdb_verif, feature = "h1_multimap"))]
 mod omaprun;
+#[cfg(all(agdb_verif, feature = "h4_dbvec"))]
+mod collrun;
 mod valrun;
 #[cfg(agdb_verif)]
 mod walrun;
@@ -298,6 +300,22 @@ fn main() {
             write_lines(&format!("{}/impl.txt", out), &o.imp);
             write_lines(&format!("{}/oracle.txt", out), &o.oracle);
             write_stats(&format!("{}/stats.json", out), &o.stats, o.histories, o.nontrivial, &o.samples);
+        }
+        #[cfg(all(agdb_verif, feature = "h4_dbvec"))]
+        "coll" => {
+            // C05, collection layer: --n histories (each on the three back-ends), --steps max operations per history
+            let steps: u64 = arg(&args, "--steps", "60").parse().unwrap();
+            let mut o = collrun::Out::new();
+            let mut r = rng::Rng::new(seed);
+            for i in 0..n {
+                let mut hr = r.fork();
+                collrun::run_history(&mut hr, &out, i as u64, steps, &mut o);
+            }
+            write_lines(&format!("{}/cases.txt", out), &o.cases);
+            write_lines(&format!("{}/impl.txt", out), &o.imp);
+            write_lines(&format!("{}/oracle.txt", out), &o.oracle);
+            o.stats.insert("histories".into(), o.histories);
+            write_stats(&format!("{}/stats.json", out), &o.stats, o.steps, o.nontrivial, &o.samples);
         }
         _ => {
             eprintln!("unknown command {}", cmd);
